@@ -121,7 +121,17 @@ class Typing:
         for r in self.G.rules:
             if r.action is None:
                 continue
+            # what a catch clause of the CALL wrapper counts (callbacks left by an exception) is no counter of the
+            # grammar: it does not steer any action
+            in_handlers = set()
+            for t in fwalk(r.action):
+                if t.get("k") == "try":
+                    for h in t.get("handlers", []) or []:
+                        for x in fwalk(h):
+                            in_handlers.add(id(x))
             for n in fwalk(r.action):
+                if id(n) in in_handlers:
+                    continue
                 tgt = None
                 if n.get("k") == "un" and n.get("op") in ("++", "--"):
                     tgt = n["e"]
@@ -672,3 +682,66 @@ def _show(l):
     if isinstance(l, Lin) and l.c <= NEG_INF // 2:
         return "unbounded-below"
     return repr(l)
+
+
+# ---------------------------------------------------------------------------------------------- R-THROWNET
+def throw_net(chk, F, G, T, rid="R-THROWNET"):
+    """The grammar counts on what each callback does to the operand stacks.  A callback that is left by an exception (caught
+    by the CALL wrapper, the parse goes on) may have done something else: expr_dot pushes `false` on top of the operand it
+    was to replace, expr_proba_compare throws before it takes its seven operands ..  The parse then ends with operands
+    nobody asked for, and the callers that take operands by position - or the next label parsed on the same builder - get
+    the wrong ones (seen by a round-8 sub-agent: `forall (t : T) (t.nope > 0)` was built as `forall (t : t) (false > 0)` and
+    left the template identifier on the stack).  Either every exception exit has the effect of some normal exit, or a parse in
+    which a callback threw counts as failed, so that the entry point drops what it pushed."""
+    from ..facts import walk, calls, short
+    chk.rule(rid, "for every grammar callback: the effect of each exception exit on the expression and type stacks equals that of "
+                  "one of its normal exits - or the CALL wrapper records the exception and the parsing entry points count such a "
+                  "parse as failed (they consult the record next to the result of utap_parse())")
+    # the mechanism: a counter incremented in the catch clause of a try around the callback, read by the entry points
+    recorded = set()
+    for fn in F.functions.values():
+        if not (fn.get("file") or "").endswith(("parser.y", "parser.cpp")) or fn.get("body") is None:
+            continue
+        for t in walk(fn["body"]):
+            if t.get("k") == "try":
+                for h in t.get("handlers", []) or []:
+                    for x in walk(h):
+                        if x.get("k") == "un" and x.get("op") in ("++", "+=") and isinstance(x.get("e"), dict) and x["e"].get("k") == "ref":
+                            recorded.add(x["e"].get("name"))
+                        if x.get("k") == "bin" and x.get("op") in ("+=", "=") and x["lhs"].get("k") == "ref" and \
+                                x["lhs"].get("dk") not in ("local", "param"):
+                            recorded.add(x["lhs"].get("name"))
+    consulted = False
+    entries = [f for f in F.fns("parse_XTA") + F.fns("parseProperty") if any(c.get("name") == "utap_parse" for c in calls(f["body"]))]
+    if entries and recorded:
+        consulted = all(any(any(x.get("k") == "ref" and x.get("name") in recorded for x in walk(n)) and
+                            any(c.get("name") == "utap_parse" for c in calls(n))
+                            for n in walk(f["body"]) if n.get("k") in ("if", "decl", "bin")) for f in entries)
+    names = sorted({c.name for r in G.rules for c in (r.calls or [])})
+    n = 0
+    for nm in names:
+        fn = F.resolve_method(T.cls, nm)
+        if fn is None or fn.get("body") is None:
+            continue
+        try:
+            res = T.I._call(fn, [None] * len(fn["params"]), _fresh_state(), 0)
+        except Unsupported:
+            continue
+        norm, thr = set(), set()
+        for s, fl in res:
+            eff = tuple(sorted((k, (v.c if v.is_const() else str(v))) for k, v in s.depth.items()
+                               if k in ("F", "T") and not (v.is_const() and v.c == 0)))
+            (thr if fl[0] == "throw" else norm).add(eff)
+        if not thr or not norm:
+            continue
+        n += 1
+        odd = sorted(thr - norm)
+        chk.ob(rid, nm, not odd or consulted,
+               "%s::%s can be left by an exception with the operand-stack effect %s, which none of its normal exits has (%s): the "
+               "grammar goes on as if the callback had done its work, and nothing marks the parse as failed - the operands left "
+               "over (or missing) shift what later consumers take from the stack" %
+               (T.cls.split("::")[-1], nm, odd, sorted(norm)), "%s:%s" % (fn["file"], fn["line"]),
+               sample="%s: exception exits %s" % (nm, "have a normal exit's effect" if not odd else
+                                                  "differ (%s) but a parse with a thrown callback counts as failed" % odd))
+    if n < 20:
+        raise AnalysisBroken("R-THROWNET: only %d callbacks with both kinds of exit" % n)
